@@ -91,6 +91,13 @@ class FaultyStream:
             self._real.write(data)
         return self._real.close()
 
+    def __enter__(self):
+        return self
+
+    def __exit__(self, *exc_info):
+        self.close()
+        return False
+
     def __getattr__(self, name):
         return getattr(self._real, name)
 
@@ -122,6 +129,14 @@ def run_once(doc, fmt, workdir, tmpdir, name, present, fault, n_writes, kind="os
     def fdopen(fd, mode="r", *a, **k):
         return FaultyStream(real_fdopen(fd, mode, *a, **k), plan)
 
+    import builtins as _bi
+
+    def open_(file, mode="r", *a, **k):
+        # the same injection point reached by another spelling: open(fd, "wb") instead of os.fdopen(fd, "wb")
+        if isinstance(file, int) and "w" in mode:
+            return FaultyStream(_bi.open(file, mode, *a, **k), plan)
+        return _bi.open(file, mode, *a, **k)
+
     def move(src, dst, *a, **k):
         if fault is not None and fault == n_writes + 2:
             raise boom(plan, 18, "injected: move")
@@ -134,6 +149,7 @@ def run_once(doc, fmt, workdir, tmpdir, name, present, fault, n_writes, kind="os
         tempfile.tempdir = tmpdir
         pm.os.fdopen = fdopen
         pm.shutil.move = move
+        pm.open = open_                 # a module-level name shadows the builtin for the code of prov.model only
         try:
             doc.serialize(name, format=fmt)
         except BOOM_CLASSES as e:
@@ -145,6 +161,10 @@ def run_once(doc, fmt, workdir, tmpdir, name, present, fault, n_writes, kind="os
         shutil.move = real_move
         tempfile.tempdir = real_tempdir
         os.chdir(cwd)
+        try:
+            del pm.open
+        except AttributeError:
+            pass
     if exc is not None:
         # "and nowhere else", a moment later: once the caller lets go of the exception, nothing the failed call left behind may
         # still own a file descriptor. A file opened now receives the lowest free descriptor number; if a stream of the failed
@@ -601,6 +621,12 @@ def replay(ctx, case):
         key = os.path.normpath(case["name"])
         if leftovers:
             fails.append(Failure("oracle", case.get("signature"), "temporary file left behind", case))
+        if case["fault"] is not None and exc is None:
+            # the write went through: the injection point (the stream serialize() opens on its temporary file, the final move)
+            # was not reached in this tree. That is a broken tie between harness and code, not a failure of the property.
+            fails.append(Failure("corr", None, "fault injection: the failure planned at step %s was never raised; serialize(path) no "
+                                 "longer writes through the stream / move this harness wraps" % (case["fault"],), case))
+            return fails
         if case["fault"] is not None and after.get(key) != before.get(key):
             fails.append(Failure("oracle", case.get("signature"), "destination changed by a failed write", case))
         if getattr(exc, "stale_descriptor", False):
